@@ -104,6 +104,21 @@ func (c *FnCtx) evalClause(fnName string, pkgPath string, args []Value, st *Stat
 		c.unsupported("synthetic function %s not found", fnName)
 		return c.f.True(), false
 	}
+	// a dependency may return a pointer of an unexported type where the contract header can only name an
+	// interface: such arguments are presented to the clause as (non-nil) interface values
+	for i, p := range fn.Params {
+		if i >= len(args) {
+			break
+		}
+		if _, isIf := p.Type().Underlying().(*types.Interface); isIf {
+			if t, ok := args[i].(*Term); ok && t.sort == SInt {
+				if args2 := append([]Value{}, args...); true {
+					args2[i] = c.f.MkIf(c.f.Int(999983), t)
+					args = args2
+				}
+			}
+		}
+	}
 	v := c.evalGhost(fn, args, st, oldSt)
 	t, ok := v.(*Term)
 	if !ok {
